@@ -3,4 +3,4 @@ Require Extraction. Require ExtrOcamlBasic.
 From NV Require Import Base.Bytes C16.Tables C16.Model C08.Model C08.ModelSlice.
 Extraction Language OCaml.
 Extraction "c08_model.ml" decode_single decode_pair_hdr decode_img decode_mgh decode_tck decode_trk
-  trk_offs_now decode_partial.
+  trk_offs_now decode_partial trk_lazy_retry tck_lazy_retry.
